@@ -441,7 +441,11 @@ func c09One(c *core.Ctx, seed uint64, isCond bool, seq []CallSpec) {
 			c.Violatef("changed:"+kindTag+"."+cs.Method, desc, "%s on a read-only %s changed: %s", cs.Desc, kindTag, d)
 			return
 		}
-		Invoke(twin.recv, twinSeq[si])
+		if cs.Method != "Transfer" {
+			// Transfer never changes its receiver; on the writable twin it could copy the twin's elements into a pool
+			// Stack that an earlier call pushed INTO the twin, creating a self-containing cycle (not a tree any more)
+			Invoke(twin.recv, twinSeq[si])
+		}
 	}
 	// does the same sequence change a writable twin? (measured: the guard matters)
 	guardMatters := false
